@@ -20,6 +20,8 @@ type SolveResult struct {
 	Model   map[string]string
 	Raw     string
 	ByProc  map[string]string
+	Hint    string
+	HintRaw string
 }
 
 func (o *Obligation) query(withModel bool) string {
@@ -31,6 +33,9 @@ func (o *Obligation) query(withModel bool) string {
 	}
 	b.WriteString(c.strLitDecls())
 	for _, d := range c.decls {
+		if o.noQuant && strings.HasPrefix(d, "(assert ") && hasQuant(d) {
+			continue
+		}
 		b.WriteString(d)
 		b.WriteByte('\n')
 	}
@@ -39,6 +44,9 @@ func (o *Obligation) query(withModel bool) string {
 		n = len(c.assumes)
 	}
 	for _, i := range o.relevantAssumes(n) {
+		if o.noQuant && hasQuant(c.assumes[i]) {
+			continue
+		}
 		b.WriteString("(assert " + c.assumes[i] + ")\n")
 	}
 	for _, x := range o.Extra {
@@ -57,7 +65,7 @@ func (o *Obligation) query(withModel bool) string {
 	if strings.Contains(body, "(idx ") {
 		// slice element offsets go through `idx` so that quantifier patterns contain no arithmetic;
 		// the defined variant (a macro) is logically identical and better at producing models
-		if o.idxDefined {
+		if o.idxDefined || o.noQuant {
 			pre.WriteString("(define-fun idx ((o Int) (k Int)) Int (+ o k))\n")
 		} else {
 			pre.WriteString("(declare-fun idx (Int Int) Int)\n(assert (forall ((o Int) (k Int)) (! (= (idx o k) (+ o k)) :pattern ((idx o k)))))\n")
@@ -65,10 +73,18 @@ func (o *Obligation) query(withModel bool) string {
 	}
 	for _, blk := range preambleBlocks {
 		if strings.Contains(body, blk.sym) {
+			if o.noQuant {
+				for _, ln := range strings.Split(blk.text, "\n") {
+					if ln != "" && !hasQuant(ln) {
+						pre.WriteString(ln + "\n")
+					}
+				}
+				continue
+			}
 			pre.WriteString(blk.text)
 		}
 	}
-	if c.needStrExt {
+	if c.needStrExt && !o.noQuant {
 		pre.WriteString(strExtAxiom)
 	}
 	b.Reset()
@@ -76,6 +92,10 @@ func (o *Obligation) query(withModel bool) string {
 	b.WriteString(body)
 	// Float64/Float32 are reserved sort names in the solvers: rename consistently
 	return strings.ReplaceAll(strings.ReplaceAll(b.String(), "Float64", "FP64s"), "Float32", "FP32s")
+}
+
+func hasQuant(s string) bool {
+	return strings.Contains(s, "(forall ") || strings.Contains(s, "(exists ")
 }
 
 // symbolTokens returns the declared symbols (constants and functions introduced by the engine)
@@ -239,6 +259,15 @@ func solve(o *Obligation, dir string, timeoutS, seed int, wantModel bool, only [
 		os.WriteFile(fileDef, []byte(o.query(wantModel)), 0o644)
 		o.idxDefined = false
 	}
+	// probe variant: all quantified hypotheses dropped. `unsat` there is still a proof (fewer
+	// hypotheses); `sat` there is only a hint that the goal is refutable.
+	fileNQ := ""
+	if hasQuant(q) && len(only) == 0 {
+		o.noQuant = true
+		fileNQ = strings.TrimSuffix(file, ".smt2") + ".noquant.smt2"
+		os.WriteFile(fileNQ, []byte(o.query(wantModel)), 0o644)
+		o.noQuant = false
+	}
 	ctx, cancel := context.WithCancel(context.Background())
 	defer cancel()
 	type r struct {
@@ -262,6 +291,9 @@ func solve(o *Obligation, dir string, timeoutS, seed int, wantModel bool, only [
 		if fileDef != "" && sp.name != "z3" {
 			jobs = append(jobs, job{sp, fileDef, sp.name + "/idxdef"})
 		}
+		if fileNQ != "" && sp.name == "z3-new" {
+			jobs = append(jobs, job{sp, fileNQ, sp.name + "/noquant"})
+		}
 	}
 	for _, jb := range jobs {
 		n++
@@ -284,6 +316,11 @@ func solve(o *Obligation, dir string, timeoutS, seed int, wantModel bool, only [
 		x := <-ch
 		got++
 		res.ByProc[x.solver] = x.ans
+		if strings.HasSuffix(x.solver, "/noquant") && x.ans == "sat" {
+			res.Hint = "refutable when the quantified hypotheses are ignored"
+			res.HintRaw = x.raw
+			continue
+		}
 		if x.ans == "unsat" || x.ans == "sat" {
 			res.Answer, res.Solver, res.Seconds, res.Raw = x.ans, x.solver, x.sec, x.raw
 			cancel()
